@@ -135,6 +135,7 @@ impl<'t> Ctx<'t> {
 
     pub fn viol(&mut self, class: &str, msg: String) {
         if self.viols.len() < 16 {
+            sim::runner::early_violation(class, self.cur_op, &msg);
             self.viols.push(Violation { class: class.to_string(), op_index: self.cur_op, msg });
         }
     }
